@@ -107,10 +107,17 @@ func runWr(e *Env) {
 		type plan struct {
 			size int
 			pre  bool
+			// deadline > 0: the request's context has a deadline this far away (shorter than
+			// the connection's write timeout: a stalled write is then cut by the context)
+			deadline time.Duration
 		}
 		var plans []plan
 		for oi := 0; oi < nOps; oi++ {
-			plans = append(plans, plan{sizes[tp.Weighted([]int{4, 3, 3, 2, 2, 1, 1})], faultsOn && tp.Chance(1, 12)})
+			pl := plan{size: sizes[tp.Weighted([]int{4, 3, 3, 2, 2, 1, 1})], pre: faultsOn && tp.Chance(1, 12)}
+			if faultsOn && tp.Chance(1, 5) {
+				pl.deadline = []time.Duration{50 * time.Millisecond, 5 * time.Millisecond, 150 * time.Millisecond}[tp.Next(3)]
+			}
+			plans = append(plans, pl)
 		}
 		k.Spawn(fmt.Sprintf("w%d", ti), func(t *kernel.Task) {
 			for oi, pl := range plans {
@@ -120,6 +127,10 @@ func runWr(e *Env) {
 					return
 				}
 				ctx, cancel := context.WithCancel(context.Background())
+				if pl.deadline > 0 {
+					ctx, cancel = context.WithTimeout(context.Background(), pl.deadline)
+					k.Fault("client.context-deadline")
+				}
 				op.cancel = cancel
 				if pl.pre {
 					cancel()
